@@ -203,7 +203,8 @@ void tmcg_mpz_fpowm
 	if (mpz_cmp(m, fpowm_table[0]))
 		throw std::invalid_argument("tmcg_mpz_fpowm: wrong base");
 	mpz_init_set(xx, x);
-	if (mpz_sgn(x) == -1)
+	const int sign = mpz_sgn(x); /* res may be an alias of x */
+	if (sign == -1)
 		mpz_neg(xx, x);
 	
 	if (mpz_sizeinbase(xx, 2UL) <= TMCG_MAX_FPOWM_T)
@@ -218,7 +219,7 @@ void tmcg_mpz_fpowm
 			}
 		}
 		/* invert the result, if x was negative */
-		if (mpz_sgn(x) == -1)
+		if (sign == -1)
 		{
 			if (!mpz_invert(res, res, p))
 			{
@@ -273,7 +274,8 @@ void tmcg_mpz_fspowm
 	if (mpz_cmp(m, fpowm_table[0]))
 		throw std::invalid_argument("tmcg_mpz_fspowm: wrong base");
 	mpz_init(foo), mpz_init(bar), mpz_init(baz), mpz_init_set(xx, x);
-	if (mpz_sgn(x) == -1)
+	const int sign = mpz_sgn(x); /* res may be an alias of x */
+	if (sign == -1)
 		mpz_neg(xx, x);
 	else
 		mpz_neg(bar, x);
@@ -298,7 +300,7 @@ void tmcg_mpz_fspowm
 			mpz_clear(foo), mpz_clear(bar), mpz_clear(baz), mpz_clear(xx);
 			throw std::runtime_error("tmcg_mpz_fspowm: mpz_invert failed");
 		}
-		if (mpz_sgn(x) == -1)
+		if (sign == -1)
 			mpz_set(res, foo);
 		else
 			mpz_set(baz, foo);
